@@ -118,7 +118,9 @@ def _emit_bins(ws, bins, sv_by_bin):
     for b, progs in bins.items():
         d = os.path.join(bdir, b)
         sv = sv_by_bin.get(b, "sylvia")
-        corpus.write_if_changed(os.path.join(d, "Cargo.toml"), corpus.bin_manifest(b, sv))
+        # every other bin of a renamed dependency inherits the rename from the workspace root
+        inherit = sv != "sylvia" and sum(map(ord, b)) % 2 == 1
+        corpus.write_if_changed(os.path.join(d, "Cargo.toml"), corpus.bin_manifest(b, sv, inherit=inherit))
         src = os.path.join(d, "src")
         os.makedirs(src, exist_ok=True)
         keep = {"main.rs"}
@@ -139,7 +141,7 @@ def _emit_bins(ws, bins, sv_by_bin):
                                  if os.path.exists(os.path.join(bdir, b, "Cargo.toml")))
     corpus.write_if_changed(os.path.join(ws.root, "Cargo.toml"),
                             "[workspace]\nresolver = \"2\"\nmembers = [" + ", ".join(f'"{m}"' for m in members) + "]\n\n"
-                            "[profile.dev]\ndebug = 0\nincremental = false\nopt-level = 0\n")
+                            "[profile.dev]\ndebug = 0\nincremental = false\nopt-level = 0\n\n" + corpus.workspace_dependencies("svx"))
     lock = os.path.join(ws.root, "Cargo.lock")
     if not os.path.exists(lock):
         import shutil
